@@ -155,13 +155,105 @@ theorem bareSplit_append (cx : Ctx) : ∀ (f : Nat) (q : Bytes),
       · have := ih ((c :: t).drop (decodeRune (c :: t)).2)
         simp only [List.append_assoc, this, List.take_append_drop]
 
-theorem decodeRune_hi (c : UInt8) (t : Bytes) (h : ¬ c < 0x80) : 0x80 ≤ (decodeRune (c :: t)).1 := by
-  rcases t with _ | ⟨b1, _ | ⟨b2, _ | ⟨b3, t⟩⟩⟩ <;> simp only [decodeRune] <;>
-    (repeat' split) <;>
-    simp_all [runeError, isCont, UInt8.le_iff_toNat_le, UInt8.lt_iff_toNat_lt, ← UInt8.toNat_inj] <;> omega
-
 theorem decodeRune_lo (c : UInt8) (t : Bytes) (h : c < 0x80) : decodeRune (c :: t) = (c.toNat, 1) := by
   simp [decodeRune, h]
+
+/-- the five ways `decodeRune (c :: t)` can come out -/
+inductive Dec : UInt8 → Bytes → Nat → Nat → Prop
+  | ascii (c : UInt8) (t : Bytes) : c.toNat < 0x80 → Dec c t c.toNat 1
+  | bad (c : UInt8) (t : Bytes) : 0x80 ≤ c.toNat → Dec c t runeError 1
+  | two (c b1 : UInt8) (t : Bytes) : 0xC2 ≤ c.toNat ∧ c.toNat ≤ 0xDF → 0x80 ≤ b1.toNat ∧ b1.toNat ≤ 0xBF →
+      Dec c (b1 :: t) (c.toNat % 32 * 64 + b1.toNat % 64) 2
+  | three (c b1 b2 : UInt8) (t : Bytes) : 0xE0 ≤ c.toNat ∧ c.toNat ≤ 0xEF → 0x80 ≤ b1.toNat ∧ b1.toNat ≤ 0xBF →
+      (c.toNat ≠ 0xE0 ∨ 0xA0 ≤ b1.toNat) → (c.toNat ≠ 0xED ∨ b1.toNat ≤ 0x9F) → 0x80 ≤ b2.toNat ∧ b2.toNat ≤ 0xBF →
+      Dec c (b1 :: b2 :: t) (c.toNat % 16 * 4096 + b1.toNat % 64 * 64 + b2.toNat % 64) 3
+  | four (c b1 b2 b3 : UInt8) (t : Bytes) : 0xF0 ≤ c.toNat ∧ c.toNat ≤ 0xF4 → 0x80 ≤ b1.toNat ∧ b1.toNat ≤ 0xBF →
+      (c.toNat ≠ 0xF0 ∨ 0x90 ≤ b1.toNat) → (c.toNat ≠ 0xF4 ∨ b1.toNat ≤ 0x8F) → 0x80 ≤ b2.toNat ∧ b2.toNat ≤ 0xBF →
+      0x80 ≤ b3.toNat ∧ b3.toNat ≤ 0xBF →
+      Dec c (b1 :: b2 :: b3 :: t) (c.toNat % 8 * 262144 + b1.toNat % 64 * 4096 + b2.toNat % 64 * 64 + b3.toNat % 64) 4
+
+theorem cont_nat {b : UInt8} (h : isCont b = true) : 0x80 ≤ b.toNat ∧ b.toNat ≤ 0xBF := by
+  simpa [isCont, UInt8.le_iff_toNat_le] using h
+
+theorem decode_dec (c : UInt8) (t : Bytes) : Dec c t (decodeRune (c :: t)).1 (decodeRune (c :: t)).2 := by
+  by_cases h0 : c < 0x80
+  · rw [decodeRune_lo c t h0]
+    exact Dec.ascii c t (by simpa [UInt8.lt_iff_toNat_lt] using h0)
+  · have h0n : 0x80 ≤ c.toNat := by simp [UInt8.lt_iff_toNat_lt] at h0; omega
+    cases hc2 : (decide (0xC2 ≤ c) && decide (c ≤ 0xDF)) with
+    | true =>
+      have hr : 0xC2 ≤ c.toNat ∧ c.toNat ≤ 0xDF := by simpa [UInt8.le_iff_toNat_le] using hc2
+      match t with
+      | [] => simp only [decodeRune, h0, hc2, if_true, if_false]; exact Dec.bad c _ h0n
+      | b1 :: t' =>
+        simp only [decodeRune, h0, hc2, if_true, if_false]
+        split
+        · rename_i h1; exact Dec.two c b1 t' hr (cont_nat h1)
+        · exact Dec.bad c _ h0n
+    | false =>
+      cases hc3 : (decide (0xE0 ≤ c) && decide (c ≤ 0xEF)) with
+      | true =>
+        have hr : 0xE0 ≤ c.toNat ∧ c.toNat ≤ 0xEF := by simpa [UInt8.le_iff_toNat_le] using hc3
+        match t with
+        | [] => simp only [decodeRune, h0, hc2, hc3, if_true, if_false, Bool.false_eq_true]; exact Dec.bad c _ h0n
+        | [b1] => simp only [decodeRune, h0, hc2, hc3, if_true, if_false, Bool.false_eq_true]; exact Dec.bad c _ h0n
+        | b1 :: b2 :: t' =>
+          simp only [decodeRune, h0, hc2, hc3, if_true, if_false, Bool.false_eq_true]
+          split
+          · rename_i h1
+            simp only [Bool.and_eq_true, decide_eq_true_eq] at h1
+            obtain ⟨⟨hlo, hhi⟩, hb2⟩ := h1
+            have hb2' := cont_nat hb2
+            have hlo' : (c.toNat ≠ 0xE0 ∨ 0xA0 ≤ b1.toNat) ∧ 0x80 ≤ b1.toNat := by
+              by_cases he : c = 0xE0
+              · simp [lo3, he, UInt8.le_iff_toNat_le] at hlo; exact ⟨Or.inr hlo, by omega⟩
+              · have : c.toNat ≠ 0xE0 := fun h => he (UInt8.toNat_inj.mp (by simpa using h))
+                simp [lo3, he, UInt8.le_iff_toNat_le] at hlo; exact ⟨Or.inl this, hlo⟩
+            have hhi' : (c.toNat ≠ 0xED ∨ b1.toNat ≤ 0x9F) ∧ b1.toNat ≤ 0xBF := by
+              by_cases he : c = 0xED
+              · simp [hi3, he, UInt8.le_iff_toNat_le] at hhi; exact ⟨Or.inr hhi, by omega⟩
+              · have : c.toNat ≠ 0xED := fun h => he (UInt8.toNat_inj.mp (by simpa using h))
+                simp [hi3, he, UInt8.le_iff_toNat_le] at hhi; exact ⟨Or.inl this, hhi⟩
+            exact Dec.three c b1 b2 t' hr ⟨hlo'.2, hhi'.2⟩ hlo'.1 hhi'.1 hb2'
+          · exact Dec.bad c _ h0n
+      | false =>
+        cases hc4 : (decide (0xF0 ≤ c) && decide (c ≤ 0xF4)) with
+        | true =>
+          have hr : 0xF0 ≤ c.toNat ∧ c.toNat ≤ 0xF4 := by simpa [UInt8.le_iff_toNat_le] using hc4
+          match t with
+          | [] => simp only [decodeRune, h0, hc2, hc3, hc4, if_true, if_false, Bool.false_eq_true]; exact Dec.bad c _ h0n
+          | [b1] => simp only [decodeRune, h0, hc2, hc3, hc4, if_true, if_false, Bool.false_eq_true]; exact Dec.bad c _ h0n
+          | [b1, b2] => simp only [decodeRune, h0, hc2, hc3, hc4, if_true, if_false, Bool.false_eq_true]; exact Dec.bad c _ h0n
+          | b1 :: b2 :: b3 :: t' =>
+            simp only [decodeRune, h0, hc2, hc3, hc4, if_true, if_false, Bool.false_eq_true]
+            split
+            · rename_i h1
+              simp only [Bool.and_eq_true, decide_eq_true_eq] at h1
+              obtain ⟨⟨⟨hlo, hhi⟩, hb2⟩, hb3⟩ := h1
+              have hb2' := cont_nat hb2
+              have hb3' := cont_nat hb3
+              have hlo' : (c.toNat ≠ 0xF0 ∨ 0x90 ≤ b1.toNat) ∧ 0x80 ≤ b1.toNat := by
+                by_cases he : c = 0xF0
+                · simp [lo4, he, UInt8.le_iff_toNat_le] at hlo; exact ⟨Or.inr hlo, by omega⟩
+                · have : c.toNat ≠ 0xF0 := fun h => he (UInt8.toNat_inj.mp (by simpa using h))
+                  simp [lo4, he, UInt8.le_iff_toNat_le] at hlo; exact ⟨Or.inl this, hlo⟩
+              have hhi' : (c.toNat ≠ 0xF4 ∨ b1.toNat ≤ 0x8F) ∧ b1.toNat ≤ 0xBF := by
+                by_cases he : c = 0xF4
+                · simp [hi4, he, UInt8.le_iff_toNat_le] at hhi; exact ⟨Or.inr hhi, by omega⟩
+                · have : c.toNat ≠ 0xF4 := fun h => he (UInt8.toNat_inj.mp (by simpa using h))
+                  simp [hi4, he, UInt8.le_iff_toNat_le] at hhi; exact ⟨Or.inl this, hhi⟩
+              exact Dec.four c b1 b2 b3 t' hr ⟨hlo'.2, hhi'.2⟩ hlo'.1 hhi'.1 hb2' hb3'
+            · exact Dec.bad c _ h0n
+        | false =>
+          simp only [decodeRune, h0, hc2, hc3, hc4, if_false, Bool.false_eq_true]
+          exact Dec.bad c _ h0n
+
+theorem decodeRune_hi (c : UInt8) (t : Bytes) (h : ¬ c < 0x80) : 0x80 ≤ (decodeRune (c :: t)).1 := by
+  have hc : 0x80 ≤ c.toNat := by simp [UInt8.lt_iff_toNat_lt] at h; omega
+  have hd := decode_dec c t
+  generalize (decodeRune (c :: t)).1 = r at hd ⊢
+  generalize (decodeRune (c :: t)).2 = w at hd
+  cases hd <;> first | omega | simp [runeError]
 
 /-! ### well-formedness of tokenizer results -/
 
